@@ -395,7 +395,7 @@ def stepExec (cx : Cx) : Exec → List Diag × Option Str
   | .action e =>
     (checkString cx e.uses "" ++
       ((e.inputs.getD []).flatMap fun kv =>
-        if (match e.uses with | some u => u.value.startsWith "actions/github-script@" | none => false) && kv.1 = "script" then
+        if (match e.uses with | some u => (cx.lower u.value).startsWith "actions/github-script@" | none => false) && kv.1 = "script" then
           checkScriptString cx (some kv.2.value) "jobs.<job_id>.steps.with"
         else checkString cx (some kv.2.value) "jobs.<job_id>.steps.with") ++
       checkString cx e.entrypoint "jobs.<job_id>.steps.with" ++ checkString cx e.args "jobs.<job_id>.steps.with", e.uses)
